@@ -17,7 +17,7 @@ ID = "C11"
 LEVEL = "model_checking"
 MIN_OUTCOMES = 3
 MANIFEST = {
-    'text': "The space (status of the pattern file) x (status of an unrelated file) x --allow-dirty x config format x file naming (plain, blank, non-ASCII: git quotes those) x spelling of the path in the config (./a.txt, sub/../a.txt, a glob reaching 13 pattern files of one directory with the unrelated file below it, a project that lives in packages/core/ of a larger repository) x crowds of 3/12/25 other dirty files x extra flags (--ignore-vcs-tag, --tag-scope branch) is enumerated in real temporary git repositories, so the status text is git's own; the real `update` must abort before modifying anything exactly when the property says so, never block on untracked unrelated files, and when it proceeds the bump commit must not contain edits the user had not staged.",
+    'text': "The space (status of the pattern file) x (status of an unrelated file) x --allow-dirty x config format x file naming (plain, blank, non-ASCII: git quotes those) x spelling of the path in the config (./a.txt, sub/../a.txt, a glob reaching 13 pattern files of one directory with the unrelated file below it, a project that lives in packages/core/ of a larger repository) x crowds of 3/12/25 other dirty files x extra flags (--ignore-vcs-tag, --tag-scope branch) is enumerated in real temporary git repositories, so the status text is git's own; the real `update` must abort before modifying anything exactly when the property says so, never block on untracked unrelated files, and when it proceeds the bump commit must not contain edits the user had not staged - also with pre- and post-commit hooks configured.",
     'note': "submodules, merge conflicts and hg status codes are outside the bound; that `git commit` also commits unrelated files the user had staged is git's semantics and only reported",
     'technique': 'explicit-state exploration: exhaustive enumeration of working-tree states in real git repositories, real CLI, state comparison',
 }
@@ -116,6 +116,9 @@ def run_chunk(chunk):
                 run_case(st, base, naming, fmt, ps, us, allow, extra=("--ignore-vcs-tag",))
                 if us in ("clean", "modified-unstaged"):
                     run_case(st, base, naming, fmt, ps, us, allow, extra=("--tag-scope", "branch"))
+            if naming in ("plain", "many-in-dir"):
+                # with hooks around the commit (they succeed and touch nothing): what the user had pending is still not bumpver's to commit
+                run_case(st, base, naming, fmt, ps, us, allow, extra=("--pre-commit-hook", "/bin/true", "--post-commit-hook", "/bin/true"))
     # a crowd of other dirty files around the pattern file in git's (sorted) status listing
     for crowd in (3, 12, 25):
         for allow in (False, True):
